@@ -111,7 +111,7 @@ def classify(ob, model):
     return ob.meta.get("part", "") + ":" + ob.meta.get("element", "")
 
 
-def run_dispatch(vc):
+def run_dispatch(vc, options=None, label="with distributed_slack", part="dispatch", tag="distributed_slack", no_branch_finding=None):
     """_run_pf_algorithm: the shortcut for networks that consist of reference buses only (_bypass_pf_and_set_results: every reference
     machine covers its own bus) ignores the slack weights, so with distributed_slack the solver that equalises deviation / weight must run
     whatever the bus types are."""
@@ -143,13 +143,24 @@ def run_dispatch(vc):
 
                 def sym_len(self, it):
                     return self.n
-            ppci = PDict(dict({"bus": Opaque("bus"), "gen": Opaque("gen")}, **{k: Rows(v) for k, v in facts.items()}))
-            out = p.call(f"{PF}:_run_pf_algorithm", ppci, PDict({"algorithm": algorithm, "ac": True, "distributed_slack": True, "recycle": None}))
+            nbr = SV(z3.Int("number_of_branches"))
+            p.assume(nbr.z >= 0)
+            ppci = PDict(dict({"bus": Opaque("bus"), "gen": Opaque("gen"), "branch": Idx(nbr)}, **{k: Rows(v) for k, v in facts.items()}))
+            opts = {"algorithm": algorithm, "ac": True, "distributed_slack": True, "enforce_q_lims": False, "recycle": None}
+            opts.update(options or {})
+            out = p.call(f"{PF}:_run_pf_algorithm", ppci, PDict(opts))
             if out.raised:
                 raise EngineError(f"_run_pf_algorithm raised {out.exc!r}")
-            p.prove(f"dispatch[{algorithm}]: with distributed_slack the Newton-Raphson solver runs (no shortcut)", called == ["_run_newton_raphson_pf"],
-                    meta=dict(part="dispatch"), note="also for networks without PV and PQ buses")
-        vc.explore(f"_run_pf_algorithm[{algorithm}, distributed_slack]", h, max_paths=40)
+            if no_branch_finding:
+                p.prove(f"dispatch[{algorithm}]: {label} the Newton-Raphson solver runs (no shortcut) in a network with branches",
+                        z3.Implies(nbr.z > 0, z3.BoolVal(called == ["_run_newton_raphson_pf"])), meta=dict(part=part),
+                        note="also for networks without PV and PQ buses")
+                p.prove(f"dispatch[{algorithm}]: {label} the Newton-Raphson solver runs (no shortcut) in a network without branches",
+                        z3.Implies(nbr.z <= 0, z3.BoolVal(called == ["_run_newton_raphson_pf"])), meta=dict(part=part, finding=no_branch_finding))
+            else:
+                p.prove(f"dispatch[{algorithm}]: {label} the Newton-Raphson solver runs (no shortcut)", called == ["_run_newton_raphson_pf"],
+                        meta=dict(part=part), note="also for networks without PV and PQ buses")
+        vc.explore(f"_run_pf_algorithm[{algorithm}, {tag}]", h, max_paths=40)
 
 
 def replay(ob, model, finding=None):
